@@ -38,7 +38,7 @@ template<class T> constexpr typename remove_reference<T>::type&& move(T&& t) noe
 template<class T> constexpr T&& forward(typename remove_reference<T>::type& t) noexcept { return static_cast<T&&>(t); }
 template<class T> constexpr const T& max(const T&a,const T&b){ return (a<b)?b:a; }
 template<class T> constexpr const T& min(const T&a,const T&b){ return (b<a)?b:a; }
-template<class T> class initializer_list { const T* _M_array; size_t _M_len; constexpr initializer_list(const T*a,size_t l):_M_array(a),_M_len(l){} public: constexpr initializer_list():_M_array(0),_M_len(0){} constexpr size_t size()const{return _M_len;} constexpr const T* begin()const{return _M_array;} constexpr const T* end()const{return _M_array+_M_len;} };
+template<class T> class initializer_list { const T* _M_array; size_t _M_len; constexpr initializer_list(const T*a,size_t l):_M_array(a),_M_len(l){} public: constexpr initializer_list():_M_array(0),_M_len(0){} constexpr size_t size()const{return _M_len;} constexpr const T* begin()const{return _M_array;} constexpr const T* end()const{return _M_len ? _M_array+_M_len : _M_array;} };
 template<class A,class B> struct pair { A first; B second; pair():first(),second(){} pair(const A&a,const B&b):first(a),second(b){} template<class A2,class B2> pair(const pair<A2,B2>&o):first(o.first),second(o.second){} };
 template<class A,class B> pair<A,B> make_pair(A a,B b){ return pair<A,B>(a,b); }
 template<class A,class B> bool operator==(const pair<A,B>&x,const pair<A,B>&y){ return x.first==y.first && x.second==y.second; }
